@@ -38,7 +38,7 @@ def cmp_contract(name):
             "        ensures ({ %s cmp_step_post(*old(self), *final(self), cont, dest, reg1, reg2, %s) }),\n" % (LETS, CMP[name]))
 
 
-R7 = re.compile(r'let s = String::from_utf8\(builder\)\.unwrap\(\);\s*let s = StringObject::new\(s, self\);')
+R7 = re.compile(r'let s = String::from_utf8\((\w+)\)\.unwrap\(\);\s*let s = StringObject::new\(s, self\);')  # any name for the byte buffer
 
 OTHER = {
     'StringCountBytes': dict(
@@ -74,7 +74,7 @@ def build(exclude=()):
         body, k = apply_R4(body)
         rewrites['R4'] += k
         if name == 'ConcatStrings':
-            body, k = R7.subn('let s = self.new_string_from_utf8(builder);', body)
+            body, k = R7.subn(r'let s = self.new_string_from_utf8(\1);', body)
             rewrites['R7'] += k
             if k != 1:
                 raise S.SliceError("ConcatStrings: from_utf8/StringObject::new sequence found %d times" % k)
